@@ -286,14 +286,127 @@ def rule_sides_from_hdfs_only(prog, fixture=False):
     return r
 
 
+# ---------------------------------------------------------------- R-C13-7
+def _root_decl(e):
+    e = strip_all(e)
+    for _ in range(6):
+        if e is None:
+            return None
+        if e.get("k") == "UnaryOperator" and e.get("op") in ("&", "*"):
+            e = strip_all(e["c"][0])
+        elif e.get("k") in ("CXXConstructExpr", "CXXTemporaryObjectExpr", "CXXFunctionalCastExpr") and len(e.get("c", [])) == 1:
+            e = strip_all(e["c"][0])
+        elif e.get("k") == "MemberExpr" and e.get("c"):
+            e = strip_all(e["c"][0])
+        else:
+            break
+    return e.get("d") if e is not None and e.get("k") == "DeclRefExpr" else None
+
+
+def rule_format_of_own_surface(prog, fixture=False):
+    r = RuleResult("R-C13-7", "the format recorded for a surface (DriveConfig(format, device)) is the result of "
+                   "identify_file_system applied to that same device in the same pass of the loop over the "
+                   "surfaces - never a value carried over from another surface", floor=0 if fixture else 3)
+    for fn in prog.functions.values():
+        for n in fn.walk():
+            if n.get("k") not in ("CXXConstructExpr", "CXXTemporaryObjectExpr") or \
+                    notpl(n.get("cls") or "").split("::")[-1] != "DriveConfig" or len(n.get("c", [])) != 2:
+                continue
+            if fn.name == "DriveConfig":
+                continue
+            dev = _root_decl(n["c"][1])
+            loop = None
+            for a in fn.ancestors(n):
+                if a.get("k") in ("ForStmt", "CXXForRangeStmt", "WhileStmt", "DoStmt"):
+                    loop = a
+                    break
+            key = "%s::%s::DriveConfig@%d" % (fn.relfile(), fn.qn, len(r.instances) + 1)
+            in_loop = {id(x) for x in walk(loop)} if loop is not None else set()
+            body = loop["c"][loop["parts"]["body"]] if loop is not None and "body" in loop.get("parts", {}) else None
+            in_body = {id(x) for x in walk(body)} if body is not None else set()
+            problem, undec = None, None
+            seen = set()
+            todo = [n["c"][0]]
+            leaves = 0
+            while todo and problem is None:
+                e = strip_all(todo.pop())
+                for _ in range(4):
+                    if e is not None and e.get("k") in ("CXXConstructExpr", "CXXTemporaryObjectExpr", "CXXFunctionalCastExpr",
+                                                        "CXXBindTemporaryExpr") and len(e.get("c", [])) == 1:
+                        e = strip_all(e["c"][0])
+                if e is None or id(e) in seen:
+                    continue
+                seen.add(id(e))
+                k = e.get("k")
+                if k in ("CXXConstructExpr", "CXXTemporaryObjectExpr", "CXXNullPtrLiteralExpr") and not e.get("c"):
+                    continue            # an empty optional: "unformatted"
+                if k == "DeclRefExpr" and e.get("n") == "nullopt":
+                    continue
+                if k == "CallExpr" and notpl(e.get("q") or "").endswith("identify_file_system"):
+                    a = call_args(e)
+                    leaves += 1
+                    if dev is not None and a and _root_decl(a[0]) != dev:
+                        problem = "%s: the file system is identified on `%s` but recorded for `%s`" % (
+                            fn.loc(e), show(a[0])[:30], show(n["c"][1])[:30])
+                    elif loop is not None and id(e) not in in_body:
+                        problem = "%s: the identification is made outside the loop over the surfaces" % fn.loc(e)
+                    else:
+                        # the call must be executed in every pass that uses it: not under a condition on state
+                        # that survives from one pass to the next
+                        for anc in fn.ancestors(e):
+                            if id(anc) not in in_body:
+                                break
+                            if anc.get("k") == "IfStmt":
+                                cond = anc["c"][anc["parts"]["cond"]]
+                                for x in walk(cond):
+                                    if x.get("k") == "DeclRefExpr" and x.get("dk") == "Var":
+                                        decl_in_body = any(v.get("k") == "VarDecl" and v.get("d") == x["d"] and id(v) in in_body
+                                                           for v in fn.walk())
+                                        if not decl_in_body and any(d_ == x["d"] for y in walk(body) for d_, _ in flow.written_decls(y)):
+                                            problem = "%s: whether the surface is probed depends on `%s`, which is carried " \
+                                                      "over from the surfaces handled before" % (fn.loc(cond), x.get("n"))
+                    continue
+                if k == "DeclRefExpr" and e.get("dk") == "Var":
+                    d = e["d"]
+                    decl = [v for v in fn.walk() if v.get("k") == "VarDecl" and v.get("d") == d]
+                    writes = [y for y in fn.walk() for d_, _ in flow.written_decls(y) if d_ == d]
+                    if loop is not None and decl and id(decl[0]) not in in_body and any(id(y) in in_body for y in writes):
+                        problem = "%s: the recorded format comes from `%s`, which is declared outside the loop over the " \
+                                  "surfaces and assigned inside it: a later surface inherits the variant identified for " \
+                                  "an earlier one instead of being identified from its own markers" % (fn.loc(e), e.get("n"))
+                        continue
+                    for v in decl:
+                        if v.get("c"):
+                            todo.append(v["c"][0])
+                    for y in writes:
+                        if y.get("op") == "=" and y.get("c"):
+                            todo.append(y["c"][-1])
+                        elif y.get("k") != "VarDecl":
+                            undec = "%s: `%s` is written in a way this rule does not follow" % (fn.loc(y), e.get("n"))
+                    continue
+                if k == "DeclRefExpr" and e.get("dk") == "ParmVar":
+                    continue        # a format chosen by the caller for this one device
+                undec = "%s: cannot follow where the format `%s` comes from" % (fn.loc(e), show(e)[:40])
+            if problem:
+                r.add(key, fn.loc(n), False, problem)
+            elif undec:
+                r.undecided.append(undec)
+            else:
+                r.add(key, fn.loc(n), True, "identified on the same device, in the same pass (%d identification call%s)" %
+                      (leaves, "" if leaves == 1 else "s"), nontrivial=leaves > 0)
+    return r
+
+
 def run(ctx):
     from . import c01
     prog = ctx.prog("dfs", "N")
     return [rule_watford_guard(prog), rule_decision_table(prog), rule_probe_reads(prog), rule_opus_selfcheck(prog),
-            rule_sides_from_hdfs_only(prog), c01.rule_opus_catalogue_slot(prog, rule_id="R-C13-6")]
+            rule_sides_from_hdfs_only(prog), c01.rule_opus_catalogue_slot(prog, rule_id="R-C13-6"),
+            rule_format_of_own_surface(prog)]
 
 
 SELFTESTS = [
     (rule_watford_guard, ["c13_bad.cc"], ["c13_good.cc"], "start==2"),
     (rule_sides_from_hdfs_only, ["c13_bad.cc"], ["c13_good.cc"], "two-sided"),
+    (rule_format_of_own_surface, ["c13_surf_bad.cc"], ["c13_surf_good.cc"], "DriveConfig@"),
 ]
